@@ -37,6 +37,19 @@ let run () =
       (* putself k off:len:mode = put(k, slice of the value stored under k), handed in through the table's own pointers *)
       let rec drop n l = if n <= 0 then l else match l with [] -> [] | _ :: r -> drop (n - 1) r in
       let rec take n l = if n <= 0 then [] else match l with [] -> [] | x :: r -> x :: take (n - 1) r in
+      (* nearself k len: a first search for k (its result's key buffer is the table's own), then a search whose probe is the first
+         len bytes of that buffer: two searches, the second one is reported *)
+      let ws = match ws with
+        | ["nearself"; k; pl] when not !dead ->
+            let kb = bytes_of_hex k and pl = int_of_string pl in
+            (match step !cmp !st (Nearest (kb, O)) with
+             | Ok (s', ONear (r, _, _)) ->
+                 st := s'; let (m', _) = sstep !cmp !sp (Nearest (kb, O)) in sp := m';
+                 (match r with
+                  | Some (key, _) when pl > 0 && pl <= List.length key -> ["near"; hex_of_bytes (take pl key); "0"]
+                  | _ -> ["nearnoself"])
+             | _ -> ["nearnoself"])
+        | _ -> ws in
       let self_put k spec =
         let kb = bytes_of_hex k in
         match List.find_opt (fun (k', _) -> !cmp kb k' = Eq) (fst !sp), String.split_on_char ':' spec with
@@ -45,9 +58,10 @@ let run () =
           let len = if len < 0 then (if ds >= off then ds - off else 0) else len in
           if off + len > ds || len = 0 then None else Some (Put (kb, take len (drop off v)))
         | _ -> None in
-      let noself = (match ws with ["putself"; k; spec] -> self_put k spec = None | _ -> false) in
+      let noself = (match ws with ["putself"; k; spec] -> self_put k spec = None | ["nearnoself"] -> true | _ -> false) in
       let o = match ws with
         | ["putself"; k; spec] -> (match self_put k spec with Some p -> Some p | None -> Some Size)
+        | ["nearnoself"] -> Some Size
         | ["put"; k; v] -> Some (Put (bytes_of_hex k, bytes_of_hex v))
         | ["get"; k] -> Some (Get (bytes_of_hex k))
         | ["remove"; k] -> Some (Remove (bytes_of_hex k))
